@@ -92,6 +92,15 @@ def r7_comparator_class(ctx, repo):
                 nwrites += 1
                 v = st.value
                 C = "%s.%s" % (k.name, mname)
+                # self.comparator = self.dominance (one object under two names): what was bound to the other name in this method
+                hops = 0
+                while isinstance(v, ast.Attribute) and isinstance(v.value, ast.Name) and v.value.id == me and hops < 3:
+                    src = [s2.value for s2 in stmts_of(m) if isinstance(s2, ast.Assign) and any(access_path(t) == access_path(v) for t in s2.targets)
+                           and getattr(s2, "lineno", 0) <= getattr(st, "lineno", 0) and s2 is not st]
+                    if len(src) != 1:
+                        break
+                    v = src[0]
+                    hops += 1
                 if isinstance(v, ast.Call) and isinstance(v.func, ast.Name) and repo.has_cls(v.func.id):
                     if v.func.id != "ParetoDominance":
                         bad = bad or (k, st, "%s sets the ranking comparator to %s(...)" % (C, v.func.id))
